@@ -149,10 +149,23 @@ def method_sig(d, mname="m"):
     return "fn %s(%s%s)%s" % (mname, RECV_DECL[d["recv"]], (", a: " + aty) if aty else "", (" -> " + rty) if rty else "")
 
 
+# forwarding (`#[cglue_forward]`, `Fwd`) exists for by-reference receivers only
+# (a boxed `Fwd<&Imp>` is not offered: Imp holds a Cell, `&Imp` is not Send and the library rejects CBox<!Send>)
+FWD_CONTAINERS = {"ref": ["fwdmut", "fwdobj"], "mut": ["fwdmut", "fwdobj"]}
+
+
+def forwardable(d):
+    # the generated `impl T for Fwd<CGlueO>` has no `CGlueT: 'a` bound, so a trait whose method returns data
+    # borrowed from `self` with an elided lifetime does not compile under #[cglue_forward] (E0311): a limitation
+    # of the generator, outside every quantifier (programs that do not compile)
+    return d["recv"] in FWD_CONTAINERS and d["ret"] not in ("slice", "mutslice", "str", "optnpo")
+
+
 def render_trait(k, d):
     sig = method_sig(d)
     ir = "    #[int_result]\n" if d["ir"] else ""
-    return "    #[cglue_trait]\n%s    pub trait T {\n        %s;\n    }\n" % (ir, sig), sig
+    fw = "    #[cglue_forward]\n" if forwardable(d) else ""
+    return "    #[cglue_trait]\n%s%s    pub trait T {\n        %s;\n    }\n" % (fw, ir, sig), sig
 
 
 def method_impl(d, sig, salt=0):
@@ -170,7 +183,7 @@ def render_def(k, d):
     out.append("    impl T for Imp {\n%s    }\n" % method_impl(d, sig))
     # driver
     out.append("    pub fn run(rep: &mut Report) {\n")
-    out.append(driver_blocks(k, d, "m", CONTAINERS[d["recv"]]))
+    out.append(driver_blocks(k, d, "m", CONTAINERS[d["recv"]] + (FWD_CONTAINERS[d["recv"]] if forwardable(d) else [])))
     out.append("    }\n}\n")
     return "".join(out)
 
@@ -210,6 +223,14 @@ def driver_blocks(k, d, mname, containers):
                     mk = "let imp0 = Imp::new(%d); let imp_addr = &imp0 as *const Imp as i64; let %sobj = trait_obj!(&imp0 as T);" % (s0, om)
                 elif cont == "mut":
                     mk = "let mut imp0 = Imp::new(%d); let imp_addr = &imp0 as *const Imp as i64; let %sobj = trait_obj!(&mut imp0 as T);" % (s0, om)
+                elif cont == "fwdref":
+                    mk = "let imp0 = Imp::new(%d); let imp_addr = &imp0 as *const Imp as i64; let %sobj = trait_obj!(CBox::from(Fwd(&imp0)) as T);" % (s0, om)
+                elif cont == "fwdmut":
+                    mk = "let mut imp0 = Imp::new(%d); let imp_addr = &imp0 as *const Imp as i64; let %sobj = trait_obj!(CBox::from(Fwd(&mut imp0)) as T);" % (s0, om)
+                elif cont == "fwdobj":
+                    # an object over a forwarded reference to another object: two dispatches to reach the instance
+                    mk = ("let mut imp0 = Imp::new(%d); let imp_addr = &imp0 as *const Imp as i64; let mut inner = trait_obj!(&mut imp0 as T); "
+                          "let %sobj = trait_obj!(CBox::from(Fwd(&mut inner)) as T);" % (s0, om))
                 else:
                     mk = "let a0 = CArcSome::from(Imp::new(%d)); let imp_addr = &*a0 as *const Imp as i64; let %sobj = trait_obj!(a0 as T);" % (s0, om)
                 drop_after = "" if d["recv"] == "own" else "drop(obj);"
